@@ -6,6 +6,7 @@
 #include <etl/_config/all.hpp>
 
 #include <etl/_3rd_party/gcem/gcem.hpp>
+#include <etl/_limits/numeric_limits.hpp>
 #include <etl/_type_traits/is_constant_evaluated.hpp>
 #include <etl/_type_traits/is_same.hpp>
 
@@ -16,8 +17,22 @@ namespace detail {
 template <typename T>
 [[nodiscard]] constexpr auto remainder(T x, T y) noexcept -> T
 {
-    // GCC evaluates the builtin in constant expressions too; other compilers need the portable fallback there
+    // GCC evaluates the builtin in constant expressions too (for finite arguments and a non-zero divisor); other
+    // compilers need the portable fallback there
 #if defined(TETL_COMPILER_GCC)
+    if (is_constant_evaluated()) {
+        constexpr auto max = etl::numeric_limits<T>::max();
+        auto const finite  = [](T v) { return v >= -max and v <= max; };
+        if (x != x or y != y) {
+            return x != x ? x : y;
+        }
+        if (not finite(x) or y == T(0)) {
+            return etl::numeric_limits<T>::quiet_NaN();
+        }
+        if (not finite(y)) {
+            return x;
+        }
+    }
     constexpr auto useBuiltin = true;
 #else
     auto const useBuiltin = not is_constant_evaluated();
